@@ -50,3 +50,7 @@ pub(crate) mod c06 {
 pub(crate) mod c15 {
     include!(concat!(env!("OSRG_RUSTYBGP_VERIF_DIR"), "/hd/ev_c15.rs"));
 }
+#[allow(dead_code, unused_imports, unused_variables, clippy::all)]
+pub(crate) mod c08 {
+    include!(concat!(env!("OSRG_RUSTYBGP_VERIF_DIR"), "/hd/ev_c08.rs"));
+}
